@@ -699,14 +699,24 @@ def inline_rule(rep):
         maps = [p for p in fn["params"] if "HashMap<" in str(p.get("ty")) and str(p.get("ty")).rstrip(">").endswith("pest_meta::ast::Expr")]
         if not maps:
             continue
-        # nested helpers (`skip::populate_choices`) are reached only from their host; the host carries the guard
+        # helpers (nested in the pass function or next to it) are reached only from the pass's entry point, which
+        # carries the guard: a function taking the map that is called by another function taking the map is a helper
         host = [g for g in meta.bodies if g is not fn and fn["path"].startswith(g["path"] + "::")]
         if host:
+            continue
+        called_by = [g for g in meta.bodies if g is not fn and g.get("body") is not None
+                     and g["path"].startswith("pest_meta::optimizer::") and "::tests::" not in g["path"]
+                     and any("HashMap<" in str(p.get("ty")) and str(p.get("ty")).rstrip(">").endswith("pest_meta::ast::Expr")
+                             for p in g["params"])
+                     and any(kind(x) in ("Call", "MethodCall") and callee(x) == fn["path"] for x in walk(g["body"]))]
+        if called_by:
             continue
         n += 1
         short = fn["path"].replace("pest_meta::optimizer::", "")
         mine = [(cnd, ts) for (f, cnd, ts) in guards
                 if f is fn or f["path"].startswith(fn["path"] + "::")]
+        # the guard must stand between the entry and the helper that consults the map: calls of map-taking helpers in
+        # the entry point sit under it (or after its early return) - `ruletype_guards` reports where the rewrite runs
         if not mine:
             r.instance(short, where(fn["body"]), "consults the rule map without a rule-type test")
             r.violation(short + ":unguarded", where(fn["body"]),
